@@ -190,16 +190,10 @@ def c09_case(case):
         return {"skip": "base-none"}
     txt = " ".join(pre + [pe] + suf)
     off = len(" ".join(pre)) + (1 if pre else 0)
-    ms = C._match_regex(txt, _regex)
-
-    def touches(lo, hi):
-        return any(m.mstart < hi and m.mend > lo for m in ms)
-    if (pre and touches(0, off - 1)) or (suf and touches(off + len(pe) + 1, len(txt))):
-        return {"skip": "word-not-inert-in-context"}
-    inner = {(m.id, m.mstart - off, m.mend - off) for m in ms}
-    alone = {(m.id, m.mstart, m.mend) for m in C._match_regex(pe, _regex)}
-    if inner != alone:
-        return {"skip": "lexical-context-differs"}
+    # inertness as the property defines it: no time pattern matches anything inside the word itself
+    for w in set(pre + suf):
+        if C._match_regex(w, _regex):
+            return {"skip": "word-not-inert"}
     try:
         r = cp(txt, ts=t0, timeout=0, latent_time=latent)
     except Exception as x:
@@ -506,37 +500,56 @@ def sweep_c12(rng, tier):
             if oa != ref[ta][:len(oa)] or ob != ref[tb][:len(ob)] or len(oa) != la or len(ob) != lb:
                 fails.append({"text": ta + " || " + tb, "ts": list(ts), "opts": {"schedule": s}, "expected": "each stream as when consumed alone", "observed": "interleaved consumption changed a stream", "what": "C12 interleaving"})
                 break
-    # 3. threads with a microsecond switch interval, cold texts included
+    # 3. threads with a microsecond switch interval on cold texts; in every second round one thread is slowed down inside the
+    #    package (a trace hook that sleeps at every function call in ctparse/*) and the others start with a varying delay, so that
+    #    half-finished shared state - if there is any - is observable (schedule exploration from outside, no source hook)
+    import time as _time
     old = sys.getswitchinterval(); sys.setswitchinterval(1e-6)
     try:
-        for rnd in range(6 if tier == "thorough" else 2):
-            cold = ["%s %d.%d.20%02d %d:%02d" % (rng.choice(["meet", "", "call"]), rng.randint(1, 28), rng.randint(1, 12), rng.randint(10, 29), rng.randint(0, 23), rng.randint(0, 59)) for _ in range(6)] + \
-                   [rng.choice(["next", "this", "am", ""]) + " " + rng.choice(["mon", "friday", "sonntag"]) + " " + rng.choice(["morning", "8pm", "früh", "at noon"]) for _ in range(6)]
-            want = {}
+        rounds = 10 if tier == "thorough" else 6
+        for rnd in range(rounds):
+            cold = ["%s %d.%d.20%02d %d:%02d" % (rng.choice(["meet", "", "call"]), rng.randint(1, 28), rng.randint(1, 12), rng.randint(10, 29), rng.randint(0, 23), rng.randint(0, 59)) for _ in range(5)] + \
+                   [rng.choice(["next", "this", "am", ""]) + " " + rng.choice(["mon", "friday", "sonntag"]) + " " + rng.choice(["morning", "8pm", "früh", "at noon"]) for _ in range(5)] + \
+                   ["tomorrow %dpm" % rng.randint(1, 11), "next friday", "%d days" % rng.randint(2, 40), "heute %d uhr" % rng.randint(1, 23)]
+            slow = (rnd % 2 == 1)
+            if slow: cold = cold[:3] + cold[5:7] + cold[10:12]
+            delay = [0.0, 0.002, 0.01, 0.03, 0.06][rnd % 5]
             results = [None] * 8
             errors = []
-            barrier = threading.Barrier(8)
+            go = threading.Event()
+
+            def tracer(frame, event, arg):
+                if event == "call" and "/ctparse/" in frame.f_code.co_filename:
+                    _time.sleep(0.0002)
+                return None
 
             def worker(i):
                 try:
-                    barrier.wait()
+                    if slow and i == 0:
+                        sys.settrace(tracer)
+                    else:
+                        go.wait()
+                        if slow: _time.sleep(delay)
                     out = {}
-                    for t in cold + [x[0] for x in C12_POOL[:6]]:
+                    for t in cold:
                         out[t] = norm(stream_digest(t, ts, dict(timeout=0)))
                     results[i] = out
                 except Exception as e:
                     errors.append("%s: %s" % (type(e).__name__, e))
+                finally:
+                    sys.settrace(None)
             th = [threading.Thread(target=worker, args=(i,)) for i in range(8)]
             for x in th: x.start()
+            go.set()
             for x in th: x.join()
             dist["thread rounds"] += 1
-            solo = {t: norm(stream_digest(t, ts, dict(timeout=0))) for t in cold + [x[0] for x in C12_POOL[:6]]}
+            solo = {t: norm(stream_digest(t, ts, dict(timeout=0))) for t in cold}
             if errors:
-                fails.append({"text": cold[0], "ts": list(ts), "opts": {"threads": 8, "texts": cold}, "expected": "no exception", "observed": errors[0], "what": "C12 threads"})
+                fails.append({"text": cold[0], "ts": list(ts), "opts": {"threads": 8, "texts": cold, "slow_thread": slow, "delay": delay}, "expected": "no exception", "observed": errors[0], "what": "C12 threads"})
             for i, r in enumerate(results):
                 if r is not None and r != solo:
                     bad = [t for t in solo if r.get(t) != solo[t]]
-                    fails.append({"text": bad[0], "ts": list(ts), "opts": {"threads": 8, "texts": cold}, "expected": "same stream as single-threaded", "observed": "thread %d got a different stream for %d texts" % (i, len(bad)), "what": "C12 threads"})
+                    fails.append({"text": bad[0], "ts": list(ts), "opts": {"threads": 8, "texts": cold, "slow_thread": slow, "delay": delay}, "expected": "same stream as single-threaded", "observed": "thread %d got a different stream for %d texts" % (i, len(bad)), "what": "C12 threads"})
                     break
     finally:
         sys.setswitchinterval(old)
